@@ -109,3 +109,8 @@ def float_or_none(v):
 
 def alive(o):
     return True
+
+
+def normalized(v):
+    """engine-level representation invariant of tuples of symbolic length; always true of real tuples"""
+    return True
